@@ -12,6 +12,11 @@
 (*            the body* (atoms without prefix, or with any prefix spelling,  *)
 (*            lower-case initial, "US" for an underscore ...)                *)
 (* flag     - the classifier says the page affects document structure        *)
+(* A world may carry a field `pre`: the titles whose need_pre_expand is      *)
+(* already 1 when the call starts (left behind by an earlier analysis of a   *)
+(* database that has been edited since, or written by                        *)
+(* add_page(.., need_pre_expand=True) / an overwrite file).  No field = a    *)
+(* fresh database.                                                           *)
 (*                                                                           *)
 (* The algorithm is transcribed step by step (one action per loop iteration  *)
 (* of the code); the reference states what the property demands.  Names are  *)
@@ -31,6 +36,9 @@ Titles(W) == {p.title : p \in PagesOf(W)}
 PageAt(W, t) == CHOOSE p \in PagesOf(W) : p.title = t
 RowsOf(W) == {Row(p.title, TplNs, p.redirect, "b", "wikitext") : p \in PagesOf(W)}
 Flagged(W) == {p.title : p \in {q \in PagesOf(W) : q.flag}}
+\* marks present before the call (only existing pages can carry one)
+PreOf(W) == IF "pre" \in DOMAIN W THEN W.pre \cap Titles(W) ELSE {}
+WithPre(W, P) == [pages |-> W.pages, pre |-> P]
 
 \* title without the namespace prefix (str.removeprefix: unchanged if absent)
 NoPfx(t) == IF HasCanon(TplNs) /\ StartsWith(t, CanonPfx[NsKey(TplNs)]) THEN Tail(t) ELSE t
@@ -97,6 +105,28 @@ Upper(W) == FullFixR(IncRel(W, FALSE), RedirRel(W), Flagged(W))
 \* what the unrepaired code computes (names matched as exact strings)
 AsIs(W) == LowerR(IncRel(W, TRUE), RedirRel(W), Flagged(W))
 
+(* ---- a call on a database that already carries marks (world.pre) ---- *)
+\* What the statement demands whatever the earlier marks are: everything the
+\* classifier flags now and everything that transitively includes it (+ redirect
+\* neighbours) is marked after the call.  This is Lower(W): it does not depend on pre.
+\* What it allows at most: analysis never removes a mark, earlier marks count as
+\* "marked", so nothing beyond the full fixpoint from flagged \cup pre.
+UpperH(W) == FullFixR(IncRel(W, FALSE), RedirRel(W), Flagged(W) \cup PreOf(W))
+\* What the (repaired) code computes, and the statement read with "a marked one" also
+\* meaning an earlier mark: the closure from flagged \cup pre, plus redirect neighbours.
+IdealH(W) == LowerR(IncRel(W, FALSE), RedirRel(W), Flagged(W) \cup PreOf(W))
+
+\* As-is deviation "MarkedNotReseeded": only the pages flagged in this call are
+\* propagation sources, and propagation stops at a page that is marked already
+\* (B = marks after the classifier pass).
+RECURSIVE LfpBlockedR(_, _, _)
+LfpBlockedR(R, B, X) ==
+  LET X2 == X \cup {e[1] : e \in {x \in R : x[2] \in X /\ x[1] \notin B}} IN
+  IF X2 = X THEN X ELSE LfpBlockedR(R, B, X2)
+AsIsHR(R, D, F, P) ==
+  LET M1 == P \cup LfpBlockedR(R, P \cup F, F) IN M1 \cup RedirNbR(D, M1)
+AsIsH(W) == AsIsHR(IncRel(W, FALSE), RedirRel(W), Flagged(W), PreOf(W))
+
 (* ------------------------------------------------------------------ *)
 (* the algorithm as coded                                             *)
 (* ------------------------------------------------------------------ *)
@@ -115,14 +145,14 @@ avars == <<world, marked, pc, ci, imap, stack, todo, amemo, cur, com, memo>>
 AInit(W) ==
   /\ world = W
   /\ cur = RowsOf(W) /\ com = {} /\ memo = {}
-  /\ marked = {} /\ pc = "classify" /\ ci = 1
+  /\ marked = PreOf(W) /\ pc = "classify" /\ ci = 1
   /\ imap = {} /\ stack = <<>> /\ todo = {} /\ amemo = {}
 
 \* the same as an action (a new call of analyze_templates on another world)
 AReset(W) ==
   /\ world' = W
   /\ cur' = RowsOf(W) /\ com' = {} /\ memo' = {}
-  /\ marked' = {} /\ pc' = "classify" /\ ci' = 1
+  /\ marked' = PreOf(W) /\ pc' = "classify" /\ ci' = 1
   /\ imap' = {} /\ stack' = <<>> /\ todo' = {} /\ amemo' = {}
 
 \* get_page(name, template ns) through the lru_cache; the Page object carries the
@@ -148,7 +178,10 @@ Classify ==
           /\ amemo' = IF "IncludedNamesMatchedExactly" \in Dev THEN amemo
                       ELSE amemo \cup {MemoGet(amemo, w) : w \in p.uses}
           /\ marked' = IF p.flag THEN marked \cup {p.title} ELSE marked
-          /\ stack' = IF p.flag THEN Append(stack, p.title) ELSE stack
+          \* page.need_pre_expand of the row as read by get_all_pages: the mark the
+          \* page had before the call (its own row is only updated after it was read)
+          /\ stack' = IF p.flag \/ (p.title \in marked /\ "MarkedNotReseeded" \notin Dev)
+                       THEN Append(stack, p.title) ELSE stack
           /\ ci' = ci + 1
           /\ pc' = pc
   /\ UNCHANGED <<world, todo, cur, com, memo>>
@@ -198,6 +231,23 @@ Sql2 ==
 ANext == Classify \/ Pop \/ Visit \/ Sql1 \/ Sql2
 Done == pc = "done"
 
+(* ---- histories: analyse, edit the store, analyse again ---- *)
+\* A world may carry a field `next` = [world, reset, set]: after this call pages are
+\* written with add_page() (new rows or overwritten ones: `reset` = their titles; a
+\* written row carries the need_pre_expand argument: `set` = the titles written with
+\* need_pre_expand=True, a subset of reset), giving next.world, which is analysed next.
+\* All other rows keep the mark the earlier call left.
+MarksAfterEdit(M, nx) == ((M \ nx.reset) \cup nx.set) \cap Titles(nx.world)
+HasNext(W) == "next" \in DOMAIN W
+NextWorld(W, M) ==
+  LET nx == W.next
+      P == MarksAfterEdit(M, nx) IN
+  IF HasNext(nx.world) THEN [pages |-> nx.world.pages, pre |-> P, next |-> nx.world.next]
+  ELSE [pages |-> nx.world.pages, pre |-> P]
+Rerun == pc = "done" /\ HasNext(world) /\ AReset(NextWorld(world, marked))
+AHNext == ANext \/ Rerun
+Finished == pc = "done" /\ ~HasNext(world)
+
 (* ------------------------------------------------------------------ *)
 (* properties of the model                                            *)
 (* ------------------------------------------------------------------ *)
@@ -211,10 +261,21 @@ ResultWithinStatement == Done => (Lower(world) \subseteq marked /\ marked \subse
 NeverOvermarks ==
   /\ (pc \in {"classify", "propagate", "inner", "sql1"}) => marked \subseteq Closure(world)
   /\ \A k \in 1..Len(stack) : stack[k] \in marked
+\* ... the same for a call on a database that already carries marks
+ResultIsIdealH == Done => marked = IdealH(world)
+ResultIsAsIsH == Done => marked = AsIsH(world)
+ResultWithinStatementH == Done => (Lower(world) \subseteq marked /\ marked \subseteq UpperH(world))
+NeverOvermarksH ==
+  /\ (pc \in {"classify", "propagate", "inner", "sql1"}) =>
+        marked \subseteq LfpR(IncRel(world, FALSE), Flagged(world) \cup PreOf(world))
+  /\ \A k \in 1..Len(stack) : stack[k] \in marked
+\* earlier marks are never removed
+KeepsEarlierMarks == PreOf(world) \subseteq marked
 \* a page is pushed at most once (hence termination within |pages| pops)
 PushedOnce == \A j, k \in 1..Len(stack) : j # k => stack[j] # stack[k]
 \* the iterative and the declarative definitions of the closure coincide
 LfpIsLeast == IncRelIsInc(world, FALSE) /\ IncRelIsInc(world, TRUE) /\ IsLeastClosure(Titles(world), IncRel(world, FALSE), Flagged(world), Closure(world))
 \* termination (checked under weak fairness of the algorithm's steps)
 Terminates == <>Done
+TerminatesH == <>Finished
 =============================================================================
